@@ -99,17 +99,16 @@ class ElectronicState(UnitsManaged):
                 raise Exception()  
             k = 0
             for nn in self.vibmodes:
-                en += vsig[k]*self.convert_energy_2_current_u(nn.omega)
+                en += vsig[k]*nn.omega
                 k += 1
 
         k = 0
         for nn in self.elsignature:
-            en += \
-            self.convert_energy_2_current_u(
-                    self.aggregate.monomers[k].elenergies[nn])
+            en += self.aggregate.monomers[k].elenergies[nn]
             k += 1
             
-        return en
+        # the total is converted at once (wavelength units are not additive)
+        return self.convert_energy_2_current_u(en)
     
         
     def vibenergy(self, vsig=None):
@@ -126,10 +125,12 @@ class ElectronicState(UnitsManaged):
            
             k = 0
             for nn in self.vibmodes:
-                en += vsig[k]*self.convert_energy_2_current_u(nn.omega)
+                en += vsig[k]*nn.omega
                 k += 1
             
-        return en
+        if en == 0.0:
+            return en
+        return self.convert_energy_2_current_u(en)
         
 
     def _spa_ndindex(self, tup, ecut=None):
@@ -393,10 +394,12 @@ class VibronicState(UnitsManaged):
            
             k = 0
             for nn in self.elstate.vibmodes:
-                en += self.vsig[k]*self.convert_energy_2_current_u(nn.omega)
+                en += self.vsig[k]*nn.omega
                 k += 1
             
-        return en        
+        if en == 0.0:
+            return en
+        return self.convert_energy_2_current_u(en)
 
 
     def signature(self):
